@@ -379,15 +379,6 @@ Proof.
   rewrite IH by assumption. apply aspec_run_ext. exact A'.
 Qed.
 
-(* REFUTED with a clean shutdown: index i1 gets alias a1; shutdown + restart; the store now says
-   that an index named a1 has the alias i1, which nobody wrote *)
-Theorem alias_shutdown_flush_refuted :
-  exists ops t i, aabs (arun ops empty_astore) t i <> aspec_run ops (aabs empty_astore) t i.
-Proof.
-  exists [AAdd 0 [105;49] [97;49]; AShutdownRestart], 0, [97;49].
-  vm_compute. discriminate.
-Qed.
-
 (* REVERSE lookup (IsAlias): consistent with the forward files as long as the process is not
    restarted ... *)
 Definition rev_consistent (s : astore) : Prop :=
@@ -528,30 +519,242 @@ Proof.
   apply negb_true_iff in Ho. apply IH; [|exact Hr]. apply astep_forward; assumption.
 Qed.
 
-(* GUARDED (guard: no restart among the operations): IsAlias(alias) finds index i iff the file of
-   index i lists the alias, after every sequence of adds and removes *)
-Theorem alias_reverse_consistent_guarded ops :
-  forallb (fun o => negb (is_restart o)) ops = true ->
-  rev_consistent (arun ops empty_astore).
+(* ---- restarts (fixed code: every tenant's files are loaded at start; the shutdown flush
+   rewrites <index>.json with the inverted in-memory map) ---- *)
+
+Lemma fold_put_get (F : list N -> nset) l : forall fm i',
+  nm_get i' (fold_left (fun fm idx => nm_put idx (F idx) fm) l fm) =
+  if existsb (bytes_eqb i') l then F i' else nm_get i' fm.
 Proof.
-  assert (G : forall s, ainv s -> rev_consistent s ->
-    forallb (fun o => negb (is_restart o)) ops = true -> rev_consistent (arun ops s)).
-  { induction ops as [|o r IH]; intros s I R H; cbn [arun]; [exact R|].
-    cbn [forallb] in H. apply andb_true_iff in H. destruct H as [Ho Hr].
-    apply negb_true_iff in Ho. apply IH; [| |exact Hr].
-    - apply astep_forward; [exact I|]. destruct o; try discriminate; reflexivity.
-    - apply astep_rev; assumption. }
-  apply G; [apply ainv_empty|apply rev_consistent_empty].
+  induction l as [|a l IH]; intros fm i'; cbn [fold_left existsb]; [reflexivity|].
+  rewrite IH, nm_get_put, (bytes_eqb_sym i' a).
+  destruct (bytes_eqb a i') eqn:E; cbn [orb].
+  - apply bytes_eqb_eq in E. subst a. destruct (existsb (bytes_eqb i') l); reflexivity.
+  - reflexivity.
 Qed.
 
-(* REFUTED with a restart: tenant 0's alias files are not scanned by initializeAliasToIndexMap
-   (only sub-directories are), so after any restart IsAlias no longer finds a stored alias *)
-Theorem alias_reverse_lost_refuted :
-  exists ops, ~ rev_consistent (arun ops empty_astore).
+Lemma a_get_key_present (m : nmap) k : forall v,
+  a_get bytes_eqb k m = Some v -> existsb (fun kv => bytes_eqb (fst kv) k) m = true.
+Proof.
+  induction m as [|[k0 v0] r IH]; intros v H; cbn [a_get] in H; [discriminate|].
+  cbn [existsb fst]. destruct (bytes_eqb k0 k); [reflexivity|]. cbn [orb]. eapply IH. exact H.
+Qed.
+
+Lemma nm_get_nonempty_key (m : nmap) k x :
+  ns_mem x (nm_get k m) = true -> existsb (fun kv => bytes_eqb (fst kv) k) m = true.
+Proof.
+  unfold nm_get. destruct (a_get bytes_eqb k m) eqn:E; [|discriminate].
+  intros _. eapply a_get_key_present. exact E.
+Qed.
+
+Lemma existsb_filter_eq (P : list N -> bool) al l :
+  existsb (bytes_eqb al) (filter P l) = P al && existsb (bytes_eqb al) l.
+Proof.
+  induction l as [|a l IH]; cbn [filter existsb]; [rewrite andb_false_r; reflexivity|].
+  destruct (P a) eqn:Ea; cbn [existsb]; rewrite IH.
+  - destruct (bytes_eqb al a) eqn:E; cbn [orb]; [|reflexivity].
+    apply bytes_eqb_eq in E. subst a. rewrite Ea. reflexivity.
+  - destruct (bytes_eqb al a) eqn:E; cbn [orb]; [|reflexivity].
+    apply bytes_eqb_eq in E. subst a. rewrite Ea. reflexivity.
+Qed.
+
+Lemma existsb_map_ {A B} (f : B -> bool) (g : A -> B) l :
+  existsb f (map g l) = existsb (fun x => f (g x)) l.
+Proof. induction l as [|a l IH]; cbn [map existsb]; [reflexivity|rewrite IH; reflexivity]. Qed.
+
+Lemma existsb_ext_ {A} (f g : A -> bool) l : (forall x, f x = g x) -> existsb f l = existsb g l.
+Proof. intros H. induction l as [|a l IH]; cbn [existsb]; [reflexivity|rewrite H, IH; reflexivity]. Qed.
+
+Lemma ns_mem_inv_set al idx rm : ns_mem al (inv_set idx rm) = ns_mem idx (nm_get al rm).
+Proof.
+  unfold inv_set, ns_mem at 1. rewrite existsb_filter_eq.
+  destruct (ns_mem idx (nm_get al rm)) eqn:E; cbn [andb]; [|reflexivity].
+  apply nm_get_nonempty_key in E. rewrite existsb_map_.
+  rewrite (existsb_ext_ _ (fun kv : list N * nset => bytes_eqb (fst kv) al)); [exact E|].
+  intros [k v]. cbn [fst]. apply bytes_eqb_sym.
+Qed.
+
+Lemma flush_tenant_mem rm fm :
+  (forall al i, ns_mem al (nm_get i fm) = ns_mem i (nm_get al rm)) ->
+  forall al i, ns_mem al (nm_get i (flush_tenant rm fm)) = ns_mem al (nm_get i fm).
+Proof.
+  intros Hc al i. unfold flush_tenant.
+  rewrite (fold_put_get (fun idx => inv_set idx rm)).
+  destruct (existsb (bytes_eqb i) (flush_targets rm)); [|reflexivity].
+  rewrite ns_mem_inv_set, Hc. reflexivity.
+Qed.
+
+Lemma flush_rev_facts s : rev_consistent s ->
+  (forall t, adir_exists t = false -> t_nm t (flush_rev s) = t_nm t (afiles s)) /\
+  (forall t i al, ns_mem al (nm_get i (t_nm t (flush_rev s))) = ns_mem al (nm_get i (t_nm t (afiles s)))).
+Proof.
+  intros R. unfold flush_rev.
+  generalize (arev s) at 2 4. intros l.
+  assert (G : forall acc,
+    ((forall t, adir_exists t = false -> t_nm t acc = t_nm t (afiles s)) /\
+     (forall t i al, ns_mem al (nm_get i (t_nm t acc)) = ns_mem al (nm_get i (t_nm t (afiles s))))) ->
+    let acc' := fold_left (fun files tr =>
+      let t := fst tr in
+      if adir_exists t then t_put t (flush_tenant (t_nm t (arev s)) (t_nm t files)) files else files) l acc in
+    (forall t, adir_exists t = false -> t_nm t acc' = t_nm t (afiles s)) /\
+    (forall t i al, ns_mem al (nm_get i (t_nm t acc')) = ns_mem al (nm_get i (t_nm t (afiles s))))).
+  { induction l as [|tr l IH]; intros acc [Q P]; cbn [fold_left]; [split; assumption|].
+    apply IH. cbn zeta. destruct (adir_exists (fst tr)) eqn:Ed; [|split; assumption].
+    split.
+    - intros t Ht. rewrite t_nm_put. destruct (N.eqb_spec (fst tr) t); [subst; congruence|apply Q; exact Ht].
+    - intros t i al. rewrite t_nm_put. destruct (N.eqb_spec (fst tr) t) as [<-|]; [|apply P].
+      rewrite flush_tenant_mem; [apply P|].
+      intros al' i'. rewrite P. symmetry. apply R. }
+  apply G. split; intros; reflexivity.
+Qed.
+
+Lemma rebuild_fold_spec fm idx al l : forall r,
+  ns_mem idx (nm_get al (fold_left (fun r ia => rev_add_all (fst ia) (nm_get (fst ia) fm) r) l r)) =
+  (existsb (fun ia : list N * nset => bytes_eqb (fst ia) idx) l && ns_mem al (nm_get idx fm))
+  || ns_mem idx (nm_get al r).
+Proof.
+  induction l as [|ia l IH]; intros r; cbn [fold_left existsb]; [reflexivity|].
+  rewrite IH. destruct (bytes_eqb (fst ia) idx) eqn:E; cbn [orb].
+  - apply bytes_eqb_eq in E. rewrite E. rewrite rev_add_all_get.
+    destruct (existsb _ l), (ns_mem al (nm_get idx fm)), (ns_mem idx (nm_get al r)); reflexivity.
+  - rewrite rev_add_all_other by (rewrite bytes_eqb_sym; exact E). reflexivity.
+Qed.
+
+Lemma rebuild_tenant_spec fm idx al :
+  ns_mem idx (nm_get al (rebuild_tenant fm)) = ns_mem al (nm_get idx fm).
+Proof.
+  unfold rebuild_tenant. rewrite rebuild_fold_spec.
+  change (nm_get al []) with (@nil (list N)). cbn [ns_mem existsb]. rewrite orb_false_r.
+  destruct (ns_mem al (nm_get idx fm)) eqn:E; [|apply andb_false_r].
+  apply nm_get_nonempty_key in E. rewrite E. reflexivity.
+Qed.
+
+Lemma t_nm_absent t' (l : list (tenant * nmap)) :
+  existsb (fun tf => N.eqb (fst tf) t') l = false -> t_nm t' l = [].
+Proof.
+  unfold t_nm, t_get. induction l as [|[t0 x] l IH]; cbn [existsb a_get fst]; [reflexivity|].
+  destruct (N.eqb t0 t'); [discriminate|]. exact IH.
+Qed.
+
+Lemma rebuild_rev_spec files t' : t_nm t' (rebuild_rev files) = rebuild_tenant (t_nm t' files).
+Proof.
+  unfold rebuild_rev.
+  assert (G : forall l acc,
+    t_nm t' (fold_left (fun acc tf => t_put (fst tf) (rebuild_tenant (t_nm (fst tf) files)) acc) l acc) =
+    if existsb (fun tf : tenant * nmap => N.eqb (fst tf) t') l then rebuild_tenant (t_nm t' files) else t_nm t' acc).
+  { induction l as [|tf l IH]; intros acc; cbn [fold_left existsb]; [reflexivity|].
+    rewrite IH, t_nm_put. destruct (N.eqb_spec (fst tf) t') as [->|]; cbn [orb].
+    - destruct (existsb _ l); reflexivity.
+    - reflexivity. }
+  rewrite G. destruct (existsb _ files) eqn:E; [reflexivity|].
+  rewrite (t_nm_absent t' files E). reflexivity.
+Qed.
+
+Lemma rebuild_consistent files : rev_consistent (mkAStore files (rebuild_rev files)).
+Proof.
+  intros t idx al. cbn [afiles arev]. rewrite rebuild_rev_spec. apply rebuild_tenant_spec.
+Qed.
+
+(* sets are compared by membership: the shutdown flush may rewrite a file with the same aliases
+   in another order *)
+Definition meq (f g : aspec) : Prop := forall t i al, ns_mem al (f t i) = ns_mem al (g t i).
+
+Lemma aspec_step_meq f g o : meq f g -> meq (aspec_step f o) (aspec_step g o).
+Proof.
+  intros H t i a. destruct o; cbn [aspec_step]; try apply H.
+  - destruct (adir_exists t0); [|apply H].
+    destruct (N.eqb t0 t && bytes_eqb idx i); [rewrite !ns_mem_add, H; reflexivity|apply H].
+  - destruct (N.eqb t0 t && bytes_eqb idx i); [rewrite !ns_mem_del, H; reflexivity|apply H].
+Qed.
+
+Lemma aspec_run_meq ops : forall f g, meq f g -> meq (aspec_run ops f) (aspec_run ops g).
+Proof.
+  induction ops as [|o r IH]; intros f g H; cbn [aspec_run]; [exact H|].
+  apply IH. apply aspec_step_meq. exact H.
+Qed.
+
+Lemma astep_full s o : ainv s -> rev_consistent s ->
+  ainv (fst (astep s o)) /\ rev_consistent (fst (astep s o)) /\
+  meq (aabs (fst (astep s o))) (aspec_step (aabs s) o).
+Proof.
+  intros I R. destruct (is_shutdown o) eqn:Es.
+  - destruct o; try discriminate. cbn [astep fst aspec_step].
+    destruct (flush_rev_facts s R) as [Q P]. split; [|split].
+    + intros t Ht. cbn [afiles]. rewrite Q by exact Ht. apply I. exact Ht.
+    + apply rebuild_consistent.
+    + intros t i al. unfold aabs. cbn [afiles]. apply P.
+  - destruct (astep_forward s o I Es) as [I' A']. split; [exact I'|]. split.
+    + destruct (is_restart o) eqn:Er.
+      * destruct o; try discriminate. cbn [astep fst]. apply rebuild_consistent.
+      * apply astep_rev; assumption.
+    + intros t i al. rewrite A'. reflexivity.
+Qed.
+
+Lemma arun_full ops : forall s, ainv s -> rev_consistent s ->
+  ainv (arun ops s) /\ rev_consistent (arun ops s) /\
+  meq (aabs (arun ops s)) (aspec_run ops (aabs s)).
+Proof.
+  induction ops as [|o r IH]; intros s I R; cbn [arun aspec_run].
+  - split; [exact I|split; [exact R|intros ? ? ?; reflexivity]].
+  - destruct (astep_full s o I R) as (I' & R' & M').
+    destruct (IH _ I' R') as (I2 & R2 & M2). split; [exact I2|split; [exact R2|]].
+    intros t i al. rewrite M2. apply aspec_run_meq. exact M'.
+Qed.
+
+(* FULL: for every sequence of adds, removes, reads, process crashes and CLEAN SHUTDOWNS followed
+   by a start, and for every tenant, GetAliases(index) holds exactly the aliases written last
+   (as a set) ... *)
+Theorem alias_refines_map ops t i al :
+  ns_mem al (aabs (arun ops empty_astore) t i) = ns_mem al (aspec_run ops (aabs empty_astore) t i).
+Proof.
+  destruct (arun_full ops empty_astore ainv_empty rev_consistent_empty) as (_ & _ & M). apply M.
+Qed.
+
+(* ... and IsAlias(alias) finds index i iff the file of index i lists the alias *)
+Theorem alias_reverse_consistent ops : rev_consistent (arun ops empty_astore).
+Proof.
+  destruct (arun_full ops empty_astore ainv_empty rev_consistent_empty) as (_ & R & _). exact R.
+Qed.
+
+(* aliases survive a restart, graceful or not, for every tenant: from any reachable state the
+   restart changes neither the alias set of any index nor (previous theorem) their reverse lookup *)
+Theorem alias_restart_preserves ops o t i al : is_restart o = true ->
+  ns_mem al (aabs (arun (ops ++ [o]) empty_astore) t i) = ns_mem al (aabs (arun ops empty_astore) t i).
+Proof.
+  intros Hr.
+  assert (E : arun (ops ++ [o]) empty_astore = fst (astep (arun ops empty_astore) o)).
+  { generalize empty_astore. induction ops as [|x r IH]; intros s0; cbn [app arun]; [reflexivity|apply IH]. }
+  rewrite E.
+  destruct (arun_full ops empty_astore ainv_empty rev_consistent_empty) as (I & R & _).
+  destruct (astep_full _ o I R) as (_ & _ & M). rewrite M.
+  destruct o; try discriminate; reflexivity.
+Qed.
+
+(* PRE-FIX documentation (about [arun_prefix]): tenant 0's alias files were not scanned at start, so
+   after any restart IsAlias no longer found a stored alias ... *)
+Theorem prefix_alias_reverse_lost_refuted :
+  exists ops, ~ rev_consistent (arun_prefix ops empty_astore).
 Proof.
   exists [AAdd 0 [105;49] [97;49]; ACrashRestart].
   intros H. specialize (H 0 [105;49] [97;49]). vm_compute in H. discriminate.
 Qed.
+
+(* ... and the shutdown flush wrote <alias>.json holding the index names: index i1 gets alias a1;
+   shutdown + start; the store said that an index named a1 has the alias i1, which nobody wrote *)
+Theorem prefix_alias_shutdown_flush_refuted :
+  exists ops t i al,
+    ns_mem al (aabs (arun_prefix ops empty_astore) t i) <> ns_mem al (aspec_run ops (aabs empty_astore) t i).
+Proof.
+  exists [AAdd 0 [105;49] [97;49]; AShutdownRestart], 0, [97;49], [105;49].
+  vm_compute. discriminate.
+Qed.
+
+(* the same operations on the fixed code *)
+Example alias_restart_fixed :
+  snd (astep (arun [AAdd 0 [105;49] [97;49]; AShutdownRestart] empty_astore) (AIsAlias 0 [97;49])) = ASet [[105;49]] /\
+  aabs (arun [AAdd 0 [105;49] [97;49]; AShutdownRestart] empty_astore) 0 [97;49] = [] /\
+  aabs (arun [AAdd 0 [105;49] [97;49]; AShutdownRestart] empty_astore) 0 [105;49] = [[97;49]].
+Proof. vm_compute. repeat split; reflexivity. Qed.
 
 Example alias_guard_satisfiable :
   snd (astep (arun [AAdd 0 [105;49] [97;49]; AAdd 0 [105;50] [97;49]; ARemove 0 [105;49] [97;49]] empty_astore)
